@@ -1,20 +1,10 @@
 import GlyProofs.Smiles.Graft
+import GlyProofs.Smiles.TreeBalance
 /-
   C05 — Condensation mass balance. (Property theorems only.)
 -/
 namespace Gly.Props.C05
 open Gly Gly.Smi
-
-def ringOpens (es : List Ev) : Nat := es.countP (fun e => match e with | .ropen _ _ _ => true | _ => false)
-
-theorem ringOpens_map (f : Nat → Nat) (es : List Ev) : ringOpens (es.map (Ev.map f)) = ringOpens es := by
-  induction es with
-  | nil => rfl
-  | cons e es ih =>
-    cases e <;> simp [ringOpens, Ev.map, List.countP_cons] at ih ⊢ <;> omega
-
-theorem ringOpens_append (a b : List Ev) : ringOpens (a ++ b) = ringOpens a + ringOpens b := by
-  simp [ringOpens, List.countP_append]
 
 /-- **Atom balance of one splice**, for every way of counting atoms (`P` = "is an oxygen", "is a stereo carbon", …):
     the result has the atoms of the marked parent and of the block, minus the marker atom – whatever the residues are. -/
@@ -48,5 +38,22 @@ theorem C05_graft_balance (pre post C' : List Tok) (M c0 : Atom) (S A c : St) (p
   obtain ⟨B, as, es, hB, ea, ee, fa, fe, _, _, _⟩ := graft pre post C' M c0 S A c p hpre hp hA hleaf hc hclosed hlab
   refine ⟨B, hB, C05_atoms S A B c M as P ea fa, ?_⟩
   exact C05_bonds_and_rings S A B c _ es _ _ ee fe
+
+/-- **Atom balance of the whole glycan** (any depth and width, O- and N-linkages), for every way `P` of counting atoms
+    (oxygens, stereo carbons, …): the atoms of the assembled molecule plus what the linkages removed – one marker atom per
+    linkage, standing for the parent's linking O or N, plus the anomeric O of every N-linked child (`lost`) – are exactly the
+    atoms of all residue strings plus one N per N-linkage (`gained`). With the implicit hydrogens of the organic subset this
+    is "the residues minus n-1 water". -/
+theorem C05_tree_atoms (isMk : Atom → Bool) (hN : isMk ['N'] = false) (t : TNode) (h : wfTree isMk t = true) (P : Atom → Bool) :
+    (atomsOf (mergeTok t)).countP P + (lost t).countP P = (gained t).countP P :=
+  tree_balance isMk hN t h P
+
+/-- **Ring and bond balance of the whole glycan**: the Spec molecule has exactly the ring closures of its residues and
+    exactly their bond events (the bond to each marker becomes the glycosidic bond) – and by `C01_tree_refines_spec` the
+    assembled string denotes that molecule. -/
+theorem C05_tree_rings (isMk : Atom → Bool) (hN : isMk ['N'] = false) (t : TNode) (h : wfTree isMk t = true) :
+    ∃ M, sem (mergeTok t) = some M ∧ ringOpens M.evs = treeRings t ∧ M.evs.length = treeBonds t := by
+  obtain ⟨M, h1, h2, _, _⟩ := tree_ok isMk hN t h
+  exact ⟨M, h1, spec_rings t M h2⟩
 
 end Gly.Props.C05
